@@ -103,7 +103,7 @@ func (in *Instance) Concretise(m M) (string, []byte) {
 		a := getm(m, "att")
 		pm = &types.MsgDisableAttester{From: from, Attester: t.AttesterString(gets(a, "key"), gets(a, "sp"))}
 	case "UpdateSignatureThreshold":
-		pm = &types.MsgUpdateSignatureThreshold{From: from, Amount: uint32(geti(m, "amt"))}
+		pm = &types.MsgUpdateSignatureThreshold{From: from, Amount: ThresholdVal(geti(m, "amt"))}
 	case "PauseBurningAndMinting":
 		pm = &types.MsgPauseBurningAndMinting{From: from}
 	case "UnpauseBurningAndMinting":
